@@ -13,7 +13,7 @@ PY = "/venv/bin/python"
 CHECKS = {
     "C01": (
         "regex language inclusion (tokenizer vs tag handler) + typestate/flow walk over parser handlers",
-        "Decides eleven necessary conditions of parse() totality and tree well-formedness for all inputs: every tokenizer tag token is accepted by tag_fn's regexes (language inclusion), no token alternative is nullable, heading tables agree, numeric conversions on the parse path are soundly guarded, children and attribute text are finalised before they are moved into argument fields, raw stack pops are paired with removal from the parent, parser state is reset per parse, row/cell/caption/list-item pushes happen only with the required parent on top (set-valued typestate), no loop around _parser_pop can pop ROOT, entries of the parameter defaultdict stay lists, constant indexes into a node's largs/children are guarded, cookie finalisation iterates to a fixed point and the parser never resets the cookie table. Does not decide totality in general. Token handlers close begin-of-line lists before they open a node (inferred from 13 conforming handlers, frozen with three reasoned exceptions). No memoised function returns per-page encoded text; the serialiser the parser calls is only handed fields that are set.",
+        "Decides eleven necessary conditions of parse() totality and tree well-formedness for all inputs: every tokenizer tag token is accepted by tag_fn's regexes (language inclusion), no token alternative is nullable, heading tables agree, numeric conversions on the parse path are soundly guarded, children and attribute text are finalised before they are moved into argument fields, raw stack pops are paired with removal from the parent, parser state is reset per parse, row/cell/caption/list-item pushes happen only with the required parent on top (set-valued typestate), no loop around _parser_pop can pop ROOT, entries of the parameter defaultdict stay lists, constant indexes into a node's largs/children are guarded, cookie finalisation iterates to a fixed point and the parser never resets the cookie table. Does not decide totality in general. Token handlers close begin-of-line lists before they open a node (inferred from 13 conforming handlers, frozen with three reasoned exceptions). No memoised function returns per-page encoded text; the serialiser the parser calls is only handed fields that are set. The link-trail pattern cannot consume a placeholder character (language inclusion); every namespace prefix ends with its separator. int() after isdecimal() needs a length bound (CPython's 4300-digit limit; one recorded site).",
         "Trusts Python's re semantics as modelled by the regex toolkit; handlers reached only through tokenops/process_text dispatch.",
         "DESIGN.md §3 C01",
     ),
@@ -31,13 +31,13 @@ CHECKS = {
     ),
     "C04": (
         "must-pass-through and def-use on the template expansion path",
-        "Decides seven narrow clauses: automatic newline not bypassed, includable part computed at ingestion, positional values untrimmed / named trimmed / later duplicates win, body pipeline order stored body->preprocess->encode->substitute->expand with the new parent frame, conditional functions trim their results, missing template -> link and undefined parameter -> literal, #switch fall-through flags are latches and every keyed entry reaches the match test, shortcuts in front of the includable-part pipeline are implied by the step patterns (regex inclusion). Thin: equality with MediaWiki output is not decidable statically. The argument map is filled in one pass over the call's arguments in the order written. Argument names reach the argument map and the lookup in one normal form (white space collapsed and stripped, or an integer index) on every path.",
+        "Decides seven narrow clauses: automatic newline not bypassed, includable part computed at ingestion, positional values untrimmed / named trimmed / later duplicates win, body pipeline order stored body->preprocess->encode->substitute->expand with the new parent frame, conditional functions trim their results, missing template -> link and undefined parameter -> literal, #switch fall-through flags are latches and every keyed entry reaches the match test, shortcuts in front of the includable-part pipeline are implied by the step patterns (regex inclusion). Thin: equality with MediaWiki output is not decidable statically. The argument map is filled in one pass over the call's arguments in the order written. Argument names reach the argument map and the lookup in one normal form (white space collapsed and stripped, or an integer index) on every path. The noinclude removal matches exactly a <noinclude>..</noinclude> section (inclusion); the onlyinclude bodies are all joined (read structurally).",
         "Def-use is intra-procedural over the anchored closures.",
         "DESIGN.md §3 C04",
     ),
     "C05": (
         "may-raise analysis over the parser-function registry + recursion-guard dominance",
-        "For every registered parser function and the expansion closure: constant argument indexes are guarded, numeric conversions are soundly guarded, #expr arithmetic applications are under handlers covering the operator tables' exceptions, data-table subscripts are guarded or present in every shipped data file, tables read by SQL exist, recursion/loop guards dominate the recursive calls with a bounded depth constant, input-sized work is clamped, every call-graph cycle on the expansion path is depth-guarded or an enumerated structural recursion (frame-hungry ones under a RecursionError handler), constructor helpers assign the same context attributes on every path. Does not decide termination in general. The template-loop detector enumerates candidate periods; new recursive groups are accepted only with a size-change argument (every cycle descends into a part of a parameter). The expansion path the recursion guards read is never rebound during a page. No negative verdict is returned from inside the enumeration of periods on a content-dependent test.",
+        "For every registered parser function and the expansion closure: constant argument indexes are guarded, numeric conversions are soundly guarded, #expr arithmetic applications are under handlers covering the operator tables' exceptions, data-table subscripts are guarded or present in every shipped data file, tables read by SQL exist, recursion/loop guards dominate the recursive calls with a bounded depth constant, input-sized work is clamped, every call-graph cycle on the expansion path is depth-guarded or an enumerated structural recursion (frame-hungry ones under a RecursionError handler), constructor helpers assign the same context attributes on every path. Does not decide termination in general. The template-loop detector enumerates candidate periods; new recursive groups are accepted only with a size-change argument (every cycle descends into a part of a parameter). The expansion path the recursion guards read is never rebound during a page. No negative verdict is returned from inside the enumeration of periods on a content-dependent test. File-system calls on paths made from page text are under an OSError handler; Optional datetime results are dereferenced only after a None test; isdecimal()-guarded int() needs a length bound (eleven recorded sites).",
         "Frozen exception table for math/builtin callables; network-backed functions excluded by name.",
         "DESIGN.md §3 C05",
     ),
@@ -49,7 +49,7 @@ CHECKS = {
     ),
     "C07": (
         "capability reachability (hook control, error-catching primitives) + cross-language constants",
-        "Decides whether a module can defeat the time limit: hook-control functions not reachable from the environment, error-catching primitives re-raise the timeout marker, the limit is armed before both pcall sites, the Python side tests the same marker string and leaves the context usable, the limit is bounded and freshly armed, the module cache receives only results of completed initialisation chunks (nothing a timeout could leave behind), the limit of an invocation is the parameter of the enclosing expand() call, never stored state, the timeout marker is probed position-independently in the whole error text, and a nested invocation neither removes nor restarts the hook of the enclosing one. Does not bound wall time. The stacks the Lua side holds by identity are never rebound.",
+        "Decides whether a module can defeat the time limit: hook-control functions not reachable from the environment, error-catching primitives re-raise the timeout marker, the limit is armed before both pcall sites, the Python side tests the same marker string and leaves the context usable, the limit is bounded and freshly armed, the module cache receives only results of completed initialisation chunks (nothing a timeout could leave behind), the limit of an invocation is the parameter of the enclosing expand() call, never stored state, the timeout marker is probed position-independently in the whole error text, and a nested invocation neither removes nor restarts the hook of the enclosing one. Does not bound wall time. The stacks the Lua side holds by identity are never rebound. On the Python side of a nested invocation the Lua stacks are cut back to their entry length and the time-limit error is passed on to the enclosing invocation; the stacks are emptied only by the per-page reset.",
         "Timeout is delivered by error() from a count hook as in the shipped sources.",
         "DESIGN.md §3 C07",
     ),
@@ -67,13 +67,13 @@ CHECKS = {
     ),
     "C10": (
         "SQL fact extraction + flow walk (memo invalidation after writers)",
-        "Memoised readers of table pages are invalidated after every writer on every normal path, the upsert updates every non-key column from excluded.* unconditionally, column lists align with bound tuples and with Page(...) construction, every lookup helper goes through get_page, commits precede close/backup, writer and reader agree on the stored key form, no case-altering call on titles beyond the first letter, the namespace tables are indexed with keys of their own key space (canonical vs local names, checked against the shipped data), objects handed out by the memoised lookup are never modified, writer and reader apply the same normalising operations, every writer of the table maintains the same in-memory mirrors, closing a context deletes no shared file, every memoised function that reaches a SELECT on pages is invalidated by every writer, namespace prefixes are lower-cased when asked, and `_` is replaced before the title meets a prefix test or the lookup. Does not decide the title-spelling matrix. Context attributes filled from looked-up pages are invalidated by every writer of the table. add_page skips the write only when every upserted column is compared as unchanged.",
+        "Memoised readers of table pages are invalidated after every writer on every normal path, the upsert updates every non-key column from excluded.* unconditionally, column lists align with bound tuples and with Page(...) construction, every lookup helper goes through get_page, commits precede close/backup, writer and reader agree on the stored key form, no case-altering call on titles beyond the first letter, the namespace tables are indexed with keys of their own key space (canonical vs local names, checked against the shipped data), objects handed out by the memoised lookup are never modified, writer and reader apply the same normalising operations, every writer of the table maintains the same in-memory mirrors, closing a context deletes no shared file, every memoised function that reaches a SELECT on pages is invalidated by every writer, namespace prefixes are lower-cased when asked, and `_` is replaced before the title meets a prefix test or the lookup. Does not decide the title-spelling matrix. Context attributes filled from looked-up pages are invalidated by every writer of the table. add_page skips the write only when every upserted column is compared as unchanged. No shipped namespace name or alias contains an underscore; every prefix namespace_prefixes returns ends with its separator.",
         "SQL is recovered from string constants reaching execute/executescript.",
         "DESIGN.md §3 C10",
     ),
     "C11": (
         "file-protocol typestate on symbolic paths",
-        "Publication protocol of the database files: the backup becomes visible under its final name only by an atomic rename of a finished copy, restore removes the old -wal/-shm before the backup is renamed into place and before opening, the backup is never deleted before it is moved, backup precedes overwrite on both override arms, commit precedes copy and the copy goes through SQLite (the database is in WAL mode). A kill at any point leaves exactly the files whose creating call started, so the protocol decides crash-safety up to SQLite's own atomic commit.",
+        "Publication protocol of the database files: the backup becomes visible under its final name only by an atomic rename of a finished copy, restore removes the old -wal/-shm before the backup is renamed into place and before opening, the backup is never deleted before it is moved, backup precedes overwrite on both override arms, commit precedes copy and the copy goes through SQLite (the database is in WAL mode). A kill at any point leaves exactly the files whose creating call started, so the protocol decides crash-safety up to SQLite's own atomic commit. The side files the restore removes cover the journal mode the schema script selects; the backup's name is pure path arithmetic.",
         "SQLite's atomic commit and os.replace atomicity are trusted.",
         "DESIGN.md §3 C11",
     ),
@@ -91,7 +91,7 @@ CHECKS = {
     ),
     "C14": (
         "sibling agreement of three argument-map builders + Lua AST shape of the key chain",
-        "Integer-key predicate, notion of 'named' (regex class algebra over a stated plain-text alphabet), trimming and stepping of the positional counter (by one, on the positional path only) agree between TemplateNode.template_parameters, the expander and make_frame; on the Lua side a key is looked up as given before its numeric form and the iteration chain holds every delivered key exactly once.",
+        "Integer-key predicate, notion of 'named' (regex class algebra over a stated plain-text alphabet), trimming and stepping of the positional counter (by one, on the positional path only) agree between TemplateNode.template_parameters, the expander and make_frame; on the Lua side a key is looked up as given before its numeric form and the iteration chain holds every delivered key exactly once. frame:preprocess hands its text to the expander unaltered.",
         "Stated plain-text alphabet; values are not compared.",
         "DESIGN.md §3 C14",
     ),
@@ -109,25 +109,25 @@ CHECKS = {
     ),
     "C17": (
         "dominance on the work-list loop + SQL facts",
-        "Every push onto the analysis work list is dominated by a fresh read, the need_pre_expand skip test and the marking write (termination on cycles); propagation direction of included_map; both redirect UPDATEs present and committed; memo invalidation of the writes; the marking UPDATE selects by key columns only; in-memory mirrors of the marking are maintained by every writer; the lookup finds every stored title. The classifier loop scans get_all_pages restricted by nothing but the namespace and skips no page. The redirect-propagation statements carry no filter beyond join, namespace, marked and not-yet-marked.",
+        "Every push onto the analysis work list is dominated by a fresh read, the need_pre_expand skip test and the marking write (termination on cycles); propagation direction of included_map; both redirect UPDATEs present and committed; memo invalidation of the writes; the marking UPDATE selects by key columns only; in-memory mirrors of the marking are maintained by every writer; the lookup finds every stored title. The classifier loop scans get_all_pages restricted by nothing but the namespace and skips no page. The redirect-propagation statements carry no filter beyond join, namespace, marked and not-yet-marked. No expression reaching the need_pre_expand column can be None.",
         "Exactness of the marked closure is graph-shaped runtime data and is not decided.",
         "DESIGN.md §3 C17",
     ),
     "C18": (
         "table agreement with the documented precedence ladder + mypy comparison-overlap + data cross-check",
-        "The #expr ladder and the table used at each level agree with the documented precedence, left folding; no str/int comparison in registered functions (quick: annotation-driven AST rule; thorough: mypy strict equality); formatnum and formatnum|R are inverse by statement order for every shipped locale, and the locale data is used as loaded. Values of the string functions are not decided. #explode resolves a negative position against a piece count that depends on the limit (information flow). Slice bounds computed from signed arguments are provably non-negative (path-sensitive integer bounds); the name:argument text is only stripped of modifiers before the split. No truthiness default replaces a localisation value that a shipped locale defines as empty on purpose (decided from data/*/localization.json).",
+        "The #expr ladder and the table used at each level agree with the documented precedence, left folding; no str/int comparison in registered functions (quick: annotation-driven AST rule; thorough: mypy strict equality); formatnum and formatnum|R are inverse by statement order for every shipped locale, and the locale data is used as loaded. Values of the string functions are not decided. #explode resolves a negative position against a piece count that depends on the limit (information flow). Slice bounds computed from signed arguments are provably non-negative (path-sensitive integer bounds); the name:argument text is only stripped of modifiers before the split. No truthiness default replaces a localisation value that a shipped locale defines as empty on purpose (decided from data/*/localization.json). Every #expr comparison operator applies exactly the comparison its key names (no tolerance).",
         "Documented precedence table frozen in the checker; values of string functions not decided.",
         "DESIGN.md §3 C18",
     ),
     "C19": (
         "exhaustiveness + writer/reader delimiter agreement + flow walk over emitter arms",
-        "to_wikitext handles every NodeKind; each opening literal it writes is a token that opens that kind in the parser; heading tables are inverse; [[ and ]] are both protected; attribute values are quoted; a parser function keeps its colon whenever it has an argument list; on every path through every emitter the node's content field (children / largs) is written out whenever it may be non-empty; every attribute line the emitter can write is accepted by the table parser (regex inclusion); serialiser counters are balanced; `<tag />` closes the element in the parser; the text between a cell's attributes and its content is the token table_cell_fn splits at; serialised content is written out unaltered. Bare start tags are written only for tags the parser closes by itself (constant folder over the tag table); Optional fields are serialised only when set; content fields the parser fills besides children/largs are written out. For every tag the emitter writes as `<tag />`, the parser's closing test folds to true with the trailing-slash flag set. Emitters written in the return-per-arm form are read through an accumulator-form normalisation.",
+        "to_wikitext handles every NodeKind; each opening literal it writes is a token that opens that kind in the parser; heading tables are inverse; [[ and ]] are both protected; attribute values are quoted; a parser function keeps its colon whenever it has an argument list; on every path through every emitter the node's content field (children / largs) is written out whenever it may be non-empty; every attribute line the emitter can write is accepted by the table parser (regex inclusion); serialiser counters are balanced; `<tag />` closes the element in the parser; the text between a cell's attributes and its content is the token table_cell_fn splits at; serialised content is written out unaltered. Bare start tags are written only for tags the parser closes by itself (constant folder over the tag table); Optional fields are serialised only when set; content fields the parser fills besides children/largs are written out. For every tag the emitter writes as `<tag />`, the parser's closing test folds to true with the trailing-slash flag set. Emitters written in the return-per-arm form are read through an accumulator-form normalisation. node_to_wikitext passes every input on to to_wikitext.",
         "Tree equivalence after re-parse is not decided.",
         "DESIGN.md §3 C19",
     ),
     "C20": (
         "effect analysis on the worker path (guarded/committed writes, transaction scopes, file deletions) + check-then-act pattern",
-        "Statements reachable from worker entry points that write table pages are guarded by an effective absence test of the same key and committed on every path; no unlocked check-then-act on a shared path at start-up; no transaction scope spans a read and a later write; schema creation is idempotent; database files are deleted only for private temp-dir databases; the busy timeout is never lowered. Thin: interleavings are not enumerated.",
+        "Statements reachable from worker entry points that write table pages are guarded by an effective absence test of the same key and committed on every path; no unlocked check-then-act on a shared path at start-up; no transaction scope spans a read and a later write; schema creation is idempotent; database files are deleted only for private temp-dir databases; the busy timeout is never lowered. Thin: interleavings are not enumerated. add_page writes with one atomic upsert (shared with C10.R2).",
         "Worker entry points are the constructor, start_page, expand, parse, node_to_*.",
         "DESIGN.md §3 C20",
     ),
